@@ -183,7 +183,7 @@ def evalM : Cond V → Path → ReqFn → Bnd V → Bool → St → List (Bnd V 
           else (acc.1 ++ [(lv.1, false)], acc.2)) ([], lr.2)
   | .sub sel c, π, req, β, ywf, st =>
       -- An(Entity(sel, c)) in condition position: required variables of the child also include the selected ones
-      let cr := evalM c (0 :: π) (fun wt => req wt ++ Terms.vars sel) β ywf st
+      let cr := evalM c (0 :: π) (fun wt => req wt ++ sel.flatMap Term.binds) β ywf st
       (cr.1.flatMap fun p => (evalArgs W D sel p.1).map fun q => (q.1, p.2), cr.2)
 
 /-- `_reset_cache_` after an evaluation: the duplicate-tracking sets are reset, the caches stay. -/
@@ -191,7 +191,9 @@ def resetDedup (st : St) : St := st.map fun p => (p.1, { p.2 with seenT := {}, s
 
 /-- One `an(...).evaluate()` run to completion: rows and the state left behind. -/
 def rowsM (q : Query V) (st : St) : List (List V) × St :=
-  let selVars := Terms.vars q.sel
+  -- `required_vars.update(self.selected_variables)`: the selected expressions themselves count, so the id a selected
+  -- Flatten node binds is part of the duplicate key, next to the variables
+  let selVars := q.sel.flatMap Term.binds
   let outs := match q.cond with
     | none => ([([], false)], st)
     | some c => evalM W D P caching c [] (fun _ => selVars) [] false st
